@@ -7,7 +7,7 @@ dst = "/verif/seeded/" + name
 os.makedirs(dst, exist_ok=True)
 for f in ("patch.diff", "demo.py", "README.md"):
     shutil.copy(os.path.join(src, f), os.path.join(dst, f))
-json.dump({"property": pid, "origin": "independent sub-agent given only the property text and a scratch worktree",
+json.dump({"property": name[:3], "seed": name, "origin": "independent sub-agent given only the property text and a scratch worktree",
            "needs_to_manifest": needs, "verified": "patch applies to a clean checkout; the 167-test baseline still passes with it; "
            "demo.py exits non-zero with the patch and 0 without", "ran": ran}, open(os.path.join(dst, "meta.json"), "w"), indent=1)
 print("kept", dst)
